@@ -212,6 +212,60 @@ func c18Nulls(c *Ctx, idx int) {
 	c.Nontrivial(e1, ref.ToJSONText(doc))
 }
 
+// literal-results: a JSON literal in a random legal layout (white space inside
+// the backticks, escapes, exponent spellings) evaluates to a value that is
+// itself a plain JSON value: domain walk, serialisation, round trip, re-query.
+func c18Literals(c *Ctx, idx int) {
+	r := c.Rand("")
+	v := gen.Doc(r, 3)
+	if idx%4 == 0 {
+		v = gen.Scalar(r)
+	}
+	js := gen.JSONLayout(r, v)
+	if idx%3 == 0 {
+		js = gen.Pick(r, []string{" ", "\t", "\n", "\r\n", "  "}) + js + gen.Pick(r, []string{" ", "\t", "\n", "\r", "  \n"})
+	}
+	lit := "`" + strings.ReplaceAll(js, "`", "\\`") + "`"
+	for _, e1 := range []string{lit, "[" + lit + ", " + lit + "]", "{k: " + lit + "}", lit + " | @", "not_null(" + lit + ")", "[" + lit + "][0]"} {
+		l := c.LibSearch(e1, nil)
+		if l.Panic != nil || l.Err != nil {
+			if l.Panic != nil {
+				c.Report(Violation{Rule: "C18/panic", Expr: e1, Got: ShowOut(l)})
+			}
+			continue
+		}
+		if s := domainCheck(l.Res, "result"); s != "" {
+			c.Report(Violation{Rule: "C18/domain", Expr: e1, Got: gen.Describe(l.Res), Detail: s})
+			continue
+		}
+		js2, err := json.Marshal(l.Res)
+		if err != nil {
+			c.Report(Violation{Rule: "C18/marshal", Expr: e1, Got: gen.Describe(l.Res), Detail: err.Error()})
+			continue
+		}
+		dec := json.NewDecoder(bytes.NewReader(js2))
+		dec.UseNumber()
+		var back any
+		if err := dec.Decode(&back); err != nil {
+			c.Report(Violation{Rule: "C18/marshal", Expr: e1, Got: string(js2), Detail: "does not decode: " + err.Error()})
+			continue
+		}
+		for _, e2 := range []string{"@", "type(@)", "to_string(@) | length(@)", "[@, @]", "@ == @", "[0]", "k", "length(to_array(@))", "abs(@)", "@ + `1`", "sort(to_array(@))", "keys(@)"} {
+			want := c.LibSearch("("+e1+") | "+e2, nil)
+			got := c.LibSearch(e2, l.Res)
+			got2 := c.LibSearch(e2, back)
+			loose := Enumerates(e2)
+			if !SameOutcome(want, got, loose) {
+				c.Report(Violation{Rule: "C18/requery", Expr: "(" + e1 + ") | " + e2, Got: ShowOut(got) + "  (Search(" + e2 + ", r1))", Want: ShowOut(want)})
+			}
+			if !strings.Contains(e2, "to_string") && !SameOutcome(want, got2, loose) {
+				c.Report(Violation{Rule: "C18/requery-after-json-roundtrip", Expr: "(" + e1 + ") | " + e2, Got: ShowOut(got2) + "  (r1 as JSON: " + clipS(string(js2), 200) + ")", Want: ShowOut(want)})
+			}
+		}
+		c.Nontrivial(e1)
+	}
+}
+
 // extremes: arithmetic near the ends of each numeric representation must give
 // an error or a finite number, never an infinity/NaN value
 func c18Extremes(c *Ctx, idx int) {
@@ -248,11 +302,12 @@ func c18Extremes(c *Ctx, idx int) {
 func init() {
 	Register(&Property{
 		ID:            "C18",
-		Rule:          "seeded (e1, document) pairs with e1 weighted towards functions and operators that construct values (length, find_*, arithmetic, keys, items, zip, group_by, split, to_array, map, sum, avg, literals): the result r1 is walked (only nil/bool/string/[]any/map[string]any/supported numeric kinds, no typed nils, no non-finite numbers), serialised with encoding/json and decoded again (structural view and JSON view must agree), and then re-queried with 6 of 59 inspecting expressions e2 (types, equality, sorting, indexing, arithmetic, string functions; none mentions $ or outer variables): Search(e2, r1) and Search(e2, JSON round trip of r1) must equal Search(\"(e1) | e2\", document); extremes stream: 23 arithmetic forms over operands near the ends of float64, float32, decimal128 and json.Number must return an error or finite, serialisable numbers; non-trivial = at least one e2 yields a non-null value; distinct by (e1, document)",
+		Rule:          "seeded (e1, document) pairs with e1 weighted towards functions and operators that construct values (length, find_*, arithmetic, keys, items, zip, group_by, split, to_array, map, sum, avg, literals): the result r1 is walked (only nil/bool/string/[]any/map[string]any/supported numeric kinds, no typed nils, no non-finite numbers), serialised with encoding/json and decoded again (structural view and JSON view must agree), and then re-queried with 6 of 59 inspecting expressions e2 (types, equality, sorting, indexing, arithmetic, string functions; none mentions $ or outer variables): Search(e2, r1) and Search(e2, JSON round trip of r1) must equal Search(\"(e1) | e2\", document); extremes stream: 23 arithmetic forms over operands near the ends of float64, float32, decimal128 and json.Number must return an error or finite, serialisable numbers; non-trivial = at least one e2 yields a non-null value; distinct by (e1, document); literal-results stream: JSON literals in random legal layouts (white space inside the backticks, escapes, exponent spellings) alone and inside multi-selects / pipes / function calls: the result passes the domain walk, serialises, and re-queries like its JSON round trip",
 		MinNontrivial: 2000,
 		Streams: []Stream{
 			{Name: "requery", N: func(c *Ctx) int { return tierN(c, 20000, 1000000) }, Run: c18Run},
 			{Name: "extremes", N: func(c *Ctx) int { return tierN(c, 3000, 60000) }, Run: c18Extremes},
+			{Name: "literal-results", N: func(c *Ctx) int { return tierN(c, 4000, 200000) }, Run: c18Literals},
 			{Name: "null-elements", N: func(c *Ctx) int { return tierN(c, 3000, 60000) }, Run: c18Nulls},
 		},
 	})
